@@ -21,7 +21,7 @@ class C04(Prop):
                    "for a pair that occurs in several rows the property does not say whose attributes win; the model follows the code and "
                    "the oracle checks attributes only on pairs that occur once"]
     model_scope = "modelled: edge_list_to_network.py, network_to_edge_list.py, edge_list.py, the nx.Graph calls they make"
-    budgets = {"quick": 300, "thorough": 4000}
+    budgets = {"quick": 300, "thorough": 20000}
     search_budget = {"quick": 800, "thorough": 6000}
 
     def gen(self, rng, i, tier):
